@@ -443,8 +443,25 @@ def g_greedy(ctx, F, body, site):
     if not callers:
         return False, "no caller"
     for fn, bi, t in callers:
+        # form B: `if let Some(WordSuffix(_)) = self.iter.peek() { .. greedily_match_suffixes() .. }` -- the call is confined to the
+        # Some edge of a branch on peek() and to the WordSuffix edge of a branch on the peeked element
+        peeks = [pb for pb, pt in fn.calls() if pt["callee"].get("name") == "peek" and fn.dominates(pb, bi)]
+        if peeks:
+            some_ok = suffix_ok = False
+            for sb in range(len(fn.blocks)):
+                sw = tables.switch_on_discr(fn, sb)
+                if not sw or not fn.dominates(sb, bi):
+                    continue
+                if "Some" in sw[2] and any(d[0] == "call" and d[1] in peeks for d, _ in origins(fn, {"copy": {"l": sw[0]["l"], "p": []}})):
+                    if sw[2]["Some"] == bi or _dominated_by_edge(fn, bi, sb, sw[2]["Some"]):
+                        some_ok = True
+                if "WordSuffix" in sw[2]:
+                    if sw[2]["WordSuffix"] == bi or _dominated_by_edge(fn, bi, sb, sw[2]["WordSuffix"]):
+                        suffix_ok = True
+            if some_ok and suffix_ok:
+                continue
         if fn.kind != "closure":
-            return False, "called outside a bool::then closure (%s)" % fn.path
+            return False, "called where peek() has not just shown a WordSuffix element (%s)" % fn.path
         use = _closure_use(F, fn)
         if not use or not is_callee(use[2], "core::bool::<impl bool>::then"):
             return False, "%s is not the argument of bool::then" % fn.path
@@ -531,8 +548,18 @@ def g_emplace(ctx, F, body, site):
         ins = [(bi, t) for bi, t in fn.calls() if t["callee"].get("name") in ("or_insert", "insert", "or_insert_with", "insert_entry")]
         ent = [(bi, t) for bi, t in fn.calls() if t["callee"].get("name") == "entry"]
         ck = [(bi, t) for bi, t in fn.calls() if t["callee"].get("name") == "contains_key"]
+        if len(ins) == 1 and len(ent) == 1 and "VacantEntry" in (ins[0][1]["callee"].get("def") or "") + (ins[0][1]["callee"].get("inst") or ""):
+            # match self.entry(key) { Occupied(_) => Err(..), Vacant(slot) => Ok(slot.insert(entry)) }: a vacant slot is fresh by construction
+            if {d for d, p in origins(fn, ins[0][1]["args"][1])} != {("param", 3)}:
+                return False, "%s: the value inserted is not the entry that was passed in" % fn.path
+            if not flows_into(fn, ent[0][0], ins[0][1]["args"][0]):
+                return False, "%s: the vacant slot does not come from entry() of this map" % fn.path
+            oks = [(bi, si, st) for bi, si, st in fn.assigns() if st["pl"]["l"] == 0 and isinstance(st["rv"].get("agg"), dict) and st["rv"]["agg"].get("variant") == "Ok"]
+            if not oks or not all(st["rv"].get("ops") and flows_into(fn, ins[0][0], st["rv"]["ops"][0]) for bi, si, st in oks):
+                return False, "%s: Ok(..) does not carry the entry returned by VacantEntry::insert" % fn.path
+            continue
         if len(ins) != 1 or len(ent) != 1 or len(ck) != 1 or ins[0][1]["callee"].get("name") != "or_insert":
-            return False, "%s: shape not recognised (one contains_key, one entry, one or_insert)" % fn.path
+            return False, "%s: shape not recognised (contains_key / entry / or_insert, or entry / VacantEntry::insert)" % fn.path
         if {d for d, p in origins(fn, ins[0][1]["args"][1])} != {("param", 3)}:
             return False, "%s: the value inserted is not the entry that was passed in" % fn.path
         if not flows_into(fn, ent[0][0], ins[0][1]["args"][0]):
@@ -640,9 +667,23 @@ def g_join_checked(ctx, F, body, site):
     if not same:
         return False, "the two traversals are over different arrays"
     # first traversal: a loop whose non-String arm returns InvalidArrayElementForJoin
-    errs = [bi for fn, bi, s in common.aggregates_of(F, "exec::val::ValError", "InvalidArrayElementForJoin") if fn is parent]
+    errs = [(bi, s_) for fn, bi, s_ in common.aggregates_of(F, "exec::val::ValError", "InvalidArrayElementForJoin") if fn is parent]
     if not errs:
-        return False, "the checking loop does not reject non-string elements"
+        return False, "the checking traversal does not reject non-string elements"
+    # the element reported comes from the first traversal, and the test is about being a string (a match on the element's kind
+    # whose String arm does not reach the error, or an is_string predicate)
+    if not any(flows_into(parent, b1, o) for bi, s_ in errs for o in s_["rv"]["ops"]):
+        return False, "the rejected element does not come from the checking traversal"
+    by_pred = any(t_["callee"].get("name") == "is_string" for b_ in F.with_closures(parent) for bi_, t_ in b_.calls())
+    by_match = False
+    for sb in range(len(parent.blocks)):
+        sw = tables.arms_complete(parent, sb)
+        if sw and sw[1].peel_refs().adt() == "exec::val::Val" and "String" in sw[2] and parent.dominates(b1, sb):
+            others = [tg for v, tg in sw[2].items() if v != "String"]
+            if not any(bi in parent.reachable(sw[2]["String"], avoid=others + [b1]) for bi, s_ in errs):
+                by_match = True
+    if not (by_pred or by_match):
+        return False, "the checking traversal does not test whether an element is a string"
     if not (parent.dominates(b1, b2) and flows_into(parent, b2, mt["args"][0])):
         return False, "the checked traversal does not precede the joining one"
     # nothing mutates the array in between: no &mut use of it
